@@ -1,7 +1,6 @@
 //! Verification hooks. Compiled only with `--cfg ts_rs_verif`; never part of a normal build.
 //!
-//! * pure re-exports of the internal string/path functions, so that they can be called
-//!   directly on generated inputs;
+//! * a re-export of `import_path`, so that it can be called directly on generated inputs;
 //! * a reset of the process-wide export registry, so that many export histories can be
 //!   replayed in one process;
 //! * named points inside `export_and_merge`, which call an optional process-global callback
@@ -120,20 +119,8 @@ pub fn registry_snapshot() -> Vec<(PathBuf, Vec<String>)> {
     v
 }
 
-pub fn merge(original_contents: String, new_contents: String) -> String {
-    super::merge(original_contents, new_contents)
-}
-
 pub fn import_path(from: &Path, import: &Path) -> Result<String, ExportError> {
     super::import_path(from, import)
-}
-
-pub fn diff_paths(path: &Path, base: &Path) -> Result<PathBuf, ExportError> {
-    super::path::diff_paths(path, base)
-}
-
-pub fn absolute(path: &Path) -> Result<PathBuf, ExportError> {
-    super::path::absolute(path)
 }
 
 pub const NOTE: &str = super::NOTE;
